@@ -2,7 +2,8 @@
   C17, second module — the tables against TRUE counts (joining C17 with C02): statements in full in
   `Lemmas/CorollariesST.lean` / `CorollariesHH.lean`.
 -/
-import PyProb.Lemmas.Corollaries
+import PyProb.Lemmas.CorollariesST
+import PyProb.Lemmas.CorollariesHH
 
 namespace PyProb.C17
 open PyProb
